@@ -128,12 +128,14 @@ func (r RemoveIntersections) processObject(_ *Visitor, schema *ast.Schema, objec
 
 	if locatedObject.Type.IsStruct() {
 		newObject := object
-		// every alias gets its own fields: what is done to one of them later must not show in the others
-		newObject.Type = ast.NewStruct(locatedObject.Type.DeepCopy().AsStruct().Fields...)
+		// every alias gets its own fields and its own hints (some hold types: the union a struct was
+		// generated from): what is done to one of them later must not show in the others
+		duplicate := locatedObject.Type.DeepCopy()
+		newObject.Type = ast.NewStruct(duplicate.AsStruct().Fields...)
 		if object.Type.ImplementsVariant() {
 			newObject.Type.Hints[ast.HintImplementsVariant] = object.Type.ImplementedVariant()
 		}
-		for hint, val := range locatedObject.Type.Hints {
+		for hint, val := range duplicate.Hints {
 			newObject.Type.Hints[hint] = val
 		}
 
